@@ -577,6 +577,45 @@ fn echo_case(g: &mut Gen) -> Verdict {
     }
 }
 
+/// Consecutive calls on images that differ in a few samples only (successive frames of a still
+/// scene): whatever a call keeps from the one before - a memo keyed on a digest of part of the
+/// image, a reused buffer - must not reach the next result.
+fn sibling_case(g: &mut Gen) -> Verdict {
+    let w = g.range(1, 48) as usize;
+    let h = g.range(1, (1600 / w as i64).clamp(1, 48)) as usize;
+    let s = g.range(1, 12) as u8;
+    let family = g.below(8);
+    let mut src = || g.byte();
+    let first = image(w, h, family, &mut src);
+    let steps = g.range(1, 4) as usize;
+    let mut frames = vec![first.clone()];
+    let mut cur = first;
+    let mut moved = Vec::new();
+    for _ in 0..steps {
+        if g.chance(1, 6) {
+            // the first frame again
+            cur = frames[0].clone();
+        } else {
+            for _ in 0..g.range(1, 3) {
+                let i = g.range(0, cur.len() as i64 - 1) as usize;
+                let d = if g.bool() { g.range(1, 3) as u8 } else { g.byte() | 1 };
+                cur[i] = cur[i].wrapping_add(d);
+                moved.push(i);
+            }
+        }
+        frames.push(cur.clone());
+    }
+    g.describe(|| json!({"w": w, "h": h, "strength": s, "family": family, "frames": frames.len(), "changed_samples": &moved, "head": &frames[0][..frames[0].len().min(24)]}));
+    let mut nt = false;
+    for (k, f) in frames.iter().enumerate() {
+        match check_image(f, w, s) {
+            Err(m) => return Verdict::fail(format!("call {} of {} on frames differing in samples {:?}: {}", k + 1, frames.len(), moved, m)),
+            Ok(n) => nt |= n && k > 0,
+        }
+    }
+    Verdict::pass_l(nt, fnv64(&frames[frames.len() - 1]) ^ ((w as u64) << 40) ^ ((s as u64) << 56), vec![if moved.is_empty() { "same frame again" } else { "frames differing in a few samples" }])
+}
+
 /// Images of two megasamples and more with both dimensions large (a frame of video, not a strip):
 /// whatever depends on the total size - work split over threads or bands, with seams - shows here.
 const LARGE_AREA: [(usize, usize); 8] = [(2048, 1040), (1920, 1088), (1500, 1400), (4096, 520), (520, 4096), (2056, 1021), (1021, 2056), (3000, 705)];
@@ -616,6 +655,7 @@ pub fn run(ctx: &Ctx) -> i32 {
     let (ic, iw, ih) = ctx.tier.pick((60_000u64, 160i64, 120i64), (600_000u64, 400i64, 300i64));
     reports.push(tape_suite(ctx, "random_images", ic, 6200, &move |g| random_image_case(g, iw, ih)));
     reports.push(tape_suite(ctx, "echo_images", ctx.tier.pick(20_000u64, 300_000u64), 3000, &echo_case));
+    reports.push(tape_suite(ctx, "sibling_frames", ctx.tier.pick(20_000u64, 300_000u64), 1800, &sibling_case));
     let mut kernel_exhaustive = false;
     if ctx.tier == Tier::Thorough {
         let r = exhaustive_suite(ctx, "kernel_exhaustive", 65536, &full_item);
@@ -629,7 +669,7 @@ pub fn run(ctx: &Ctx) -> i32 {
         ctx,
         reports,
         Summary {
-            rule: "Kernel suites place four-sample patterns at each of the four code sites (vector lanes / scalar remainder, for horizontal and vertical edges) in images where no other edge is filterable and compare with a scalar Annex J reference (truncating division); kernel_lattice enumerates 28^4 patterns x 12 strengths x 4 sites, kernel_exhaustive (thorough) all 2^32 x 12 x 4, kernel_ramp_boundaries solves the fourth sample so that d = (A-4B+4C-D)/8 lands on 0, +-1, +-(S-1..S+1), +-(2S-2..2S+1) and +-159 with every truncation remainder, for C at strength-dependent distances from B, whole groups of eight lanes sharing (A,B,C) or (B,C,D); kernel_random draws patterns from the proptest tape. echo_images: the samples around every edge are the reference filter's output of the samples around the edge before (the implementation meets its own earlier output). size_grid / random_images compare whole images of every size in a dense box (and random larger sizes) with a whole-image reference (horizontal edges first, then vertical). Non-trivial = the reference output differs from the input; evaluations counts patterns (kernel suites) or images.",
+            rule: "Kernel suites place four-sample patterns at each of the four code sites (vector lanes / scalar remainder, for horizontal and vertical edges) in images where no other edge is filterable and compare with a scalar Annex J reference (truncating division); kernel_lattice enumerates 28^4 patterns x 12 strengths x 4 sites, kernel_exhaustive (thorough) all 2^32 x 12 x 4, kernel_ramp_boundaries solves the fourth sample so that d = (A-4B+4C-D)/8 lands on 0, +-1, +-(S-1..S+1), +-(2S-2..2S+1) and +-159 with every truncation remainder, for C at strength-dependent distances from B, whole groups of eight lanes sharing (A,B,C) or (B,C,D); kernel_random draws patterns from the proptest tape. sibling_frames: two to five consecutive calls on frames of one size and strength that differ in one to a few samples (or the first frame again), each result compared with the reference. echo_images: the samples around every edge are the reference filter's output of the samples around the edge before (the implementation meets its own earlier output). size_grid / random_images compare whole images of every size in a dense box (and random larger sizes) with a whole-image reference (horizontal edges first, then vertical). Non-trivial = the reference output differs from the input; evaluations counts patterns (kernel suites) or images.",
             assumptions: vec![
                 "strength in 1..=12 and data.len() % width == 0 (documented preconditions)".into(),
                 "Annex J as recalled: d=(A-4B+4C-D)/8, d1=UpDownRamp(d,S), d2=clip((A-D)/4, +-|d1/2|), B1=clip(B+d1), C1=clip(C-d1), A1=A-d2, D1=D+d2".into(),
@@ -663,6 +703,10 @@ pub fn replay(suite: &str, case: &Value) -> Option<Verdict> {
         "echo_images" => {
             let tape = super::tape_of(case)?;
             Some(echo_case(&mut Gen::new(&tape)))
+        }
+        "sibling_frames" => {
+            let tape = super::tape_of(case)?;
+            Some(sibling_case(&mut Gen::new(&tape)))
         }
         "kernel_ramp_boundaries" => {
             let mut acc = Acc::default();
